@@ -14,7 +14,7 @@ GROUPS = [
           loops="C16/tokens.loops.json", expected_loops=7, unwind=20, checks=CH[:2], timeout=2400, mem_gb=30, tier="thorough", defines=["TLEN=16"], subst={"TLEN": 16}),
     Group(name="C16/tokens_get.len512", unity="C16/u_tokens.cpp", entry="h_tokens_get",
           functions=[("tokens_get", "core/tokens.cpp", "harness+7 loop-contracts, unbounded character stream, the real TOKENLEN"), ("tokens_get_char", "core/tokens.cpp", "loop-contract")],
-          loops="C16/tokens.loops.json", expected_loops=7, unwind=20, checks=CH[:2], timeout=3000, mem_gb=40, tier="thorough", defines=["TLEN=512"], subst={"TLEN": 512}),
+          loops="C16/tokens.loops.json", expected_loops=7, unwind=515, checks=CH[:2], timeout=3000, mem_gb=40, tier="thorough", defines=["TLEN=512"], subst={"TLEN": 512}),
 ]
 GROUPS += [g for g in _c05.GROUPS if "Memory.write1" in g.name or "Memory.write16" in g.name or "parse_align" in g.name]
 GROUPS += [g for g in _c04.GROUPS if "Var.divmod" == g.name.split("/")[1]]
